@@ -652,3 +652,88 @@ def check_arena_order(ck, P, rid):
                 ck.violated(rid, "cursor@restore", adv[0].where, "the cursor is overwritten even when the arena was unknown (NULL): every later arena loses its section", cfg)
         else:
             ck.violated(rid, "cursor@restore", cr.where, "the section cursor does not advance after a restored arena", cfg)
+
+
+# ---------------------------------------------------------------------------------------------------------------
+# index ranges of the two rollback loops, evaluated by the finite-domain interpreter over indices and tag bits only
+
+def check_rollback_ranges(ck, P, rid):
+    """send_anti_messages undoes exactly the entries [past_i, count) and leaves count == past_i; silent_execution re-dispatches
+    exactly the untagged entries of [last_i, past_i) and nothing when last_i >= past_i.  Evaluated for all 0 <= start <= end <= 4
+    with no tagged entry and with one tagged (sent-message) entry at the first or second position (never just before the rollback
+    point: markers precede their event and the rollback point is one past a processed event)."""
+    from . import interp
+    cfg = P.config
+    # ---- send_anti_messages
+    f = P.fn("send_anti_messages")
+    pn = [p["name"] for p in f.params]
+    inst = "range@send_anti_messages"
+    if len(pn) != 2:
+        ck.inconclusive(rid, inst, f.where, "unexpected signature", cfg)
+    else:
+        proc, past = pn
+        bad = None
+        unknown = None
+        for c in range(0, 5):
+            for s in range(0, c + 1):
+                env = {past: s, "%s->p_msgs.count" % proc: c}
+                for k in range(8):
+                    env["%s->p_msgs.items[%d]" % (proc, k)] = 64 * (k + 1)
+                outs = interp.Interp(f, max_visits=10).run(env)
+                if not outs or any(o.how != "exit" for o in outs):
+                    unknown = (s, c)
+                    break
+                for o in outs:
+                    undone = len([1 for name, a, e in o.calls if "atomic_fetch" in name])
+                    left = o.env.get("%s->p_msgs.count" % proc)
+                    if (undone != c - s or left != s) and bad is None:
+                        bad = (s, c, undone, left)
+            if unknown:
+                break
+        if unknown:
+            ck.inconclusive(rid, inst, f.where, "the undo loop could not be evaluated for past_i = %d, count = %d" % unknown, cfg)
+        elif bad:
+            ck.violated(rid, inst, f.where, "with past_i = %d and %d history entries, %d entr%s undone and the history is cut to %s (must be %d and %d): an event beyond the rollback point "
+                        "stays processed (its messages are never cancelled) or one before it is undone" % (bad[0], bad[1], bad[2], "y is" if bad[2] == 1 else "ies are", bad[3], bad[1] - bad[0], bad[0]), cfg)
+        else:
+            ck.holds(rid, inst, f.where, "for all 0 <= past_i <= count <= 4: entries past_i .. count-1 are undone once each and the history is cut to past_i", cfg)
+    # ---- silent_execution
+    g = P.fn("silent_execution")
+    gp = [p["name"] for p in g.params]
+    inst = "range@silent_execution"
+    if len(gp) != 3:
+        ck.inconclusive(rid, inst, g.where, "unexpected signature", cfg)
+        return
+    lp, last, past = gp
+    bad = None
+    unknown = None
+    for e in range(0, 5):
+        for s in range(0, 5):
+            for tagged in (None, s, s + 1):
+                # sent-message markers PRECEDE the event that sent them, and the rollback point is one past a processed event
+                # (C01.2): the entry just before past_i is never a marker
+                if tagged is not None and tagged > e - 2:
+                    continue
+                env = {last: s, past: e}
+                for k in range(8):
+                    env["%s->p.p_msgs.items[%d]" % (lp, k)] = 64 * (k + 1) + (1 if k == tagged else 0)
+                outs = interp.Interp(g, max_visits=10).run(env)
+                if not outs or any(o.how != "exit" for o in outs):
+                    unknown = (s, e)
+                    break
+                want = max(0, e - s) - (1 if (tagged is not None and s <= tagged < e) else 0)
+                for o in outs:
+                    got = len([1 for name, a, x in o.calls if "dispatcher" in name])
+                    if got != want and bad is None:
+                        bad = (s, e, tagged, got, want)
+            if unknown:
+                break
+        if unknown:
+            break
+    if unknown:
+        ck.inconclusive(rid, inst, g.where, "the coast-forward loop could not be evaluated for last_i = %d, past_i = %d" % unknown, cfg)
+    elif bad:
+        ck.violated(rid, inst, g.where, "restored position %d, rollback point %d%s: %d event(s) are re-executed silently instead of %d — the state after the rollback is not the state before "
+                    "the first undone event" % (bad[0], bad[1], "" if bad[2] is None else " (entry %d is a sent-message marker)" % bad[2], bad[3], bad[4]), cfg)
+    else:
+        ck.holds(rid, inst, g.where, "for all positions 0..4: exactly the processed entries of [last_i, past_i) are re-dispatched, none when last_i >= past_i", cfg)
